@@ -4,7 +4,7 @@ Each module defines  register(reg) -> {property_id: {unit_name: unit}}.
 """
 import importlib
 
-MODULES = ['util', 'inputfile', 'tokenizer', 'walker', 'visitor', 'contextdb', 'parsingstate', 'encoder']
+MODULES = ['util', 'inputfile', 'tokenizer', 'walker', 'visitor', 'contextdb', 'parsingstate', 'encoder', 'enctables']
 REPLAYERS = {}
 EXTRA_ASSUMPTIONS = {}
 
@@ -31,4 +31,10 @@ def build(reg, only=None):
         for k in ('test_for_specials', 'get_specials_spec'):
             if k in units['C14']:
                 units['C11'][k] = units['C14'][k]
+    # C13's ASCII / 'fail' statements are lemmas over C04's step contract and policy/protection contracts
+    if 'C13' in units and 'C04' in units:
+        for k, u in units['C04'].items():
+            if k == 'unicode_to_latex' or k.startswith('_do_unknown_char_') or k.startswith('_apply_protection_') \
+                    or k in ('_apply_replacement', '_apply_rule_dict', '_check_do_skip_ascii'):
+                units['C13'][k] = u
     return units
